@@ -199,10 +199,14 @@ func (r *Report) Check(ok bool, rule, construct, pos, okDetail, badDetail string
 	}
 	return ok
 }
-func (r *Report) Fn(name string)        { r.funcs[name] = true }
-func (r *Report) Assume(s string)       { r.assume = appendUniq(r.assume, s) }
-func (r *Report) NotDecided(s string)   { r.notDecided = appendUniq(r.notDecided, s) }
-func (r *Report) Trusted(s ...string)   { for _, x := range s { r.trusted = appendUniq(r.trusted, x) } }
+func (r *Report) Fn(name string)      { r.funcs[name] = true }
+func (r *Report) Assume(s string)     { r.assume = appendUniq(r.assume, s) }
+func (r *Report) NotDecided(s string) { r.notDecided = appendUniq(r.notDecided, s) }
+func (r *Report) Trusted(s ...string) {
+	for _, x := range s {
+		r.trusted = appendUniq(r.trusted, x)
+	}
+}
 func (r *Report) Note(s string)         { r.notes = append(r.notes, s) }
 func (r *Report) Extra(k string, v any) { r.extra[k] = v }
 
@@ -394,8 +398,8 @@ func (r *Report) writeEvidence(outDir string, wall float64, total, discharged, n
 			"guard atoms are independent propositions; no solver is used and no path of /repo is executed",
 			"dependencies at their pinned versions behave as documented (listed under coverage.trusted_base)",
 		}, r.assume...),
-		"wall_s":      wall,
-		"violations":  viol,
+		"wall_s":     wall,
+		"violations": viol,
 	}
 	buf, _ := json.MarshalIndent(ev, "", " ")
 	if err := os.WriteFile(filepath.Join(outDir, r.Prop+".json"), buf, 0o644); err != nil {
